@@ -23,6 +23,7 @@ func init() {
 			ruleNoSwallowedErrors(r, "U6", 3, true, "/transport/multi")
 			le := newLockEngine(r.P)
 			ruleCloseNotBehindIO(r, le, "U7")
+			r.borrow("C09", func() { rulePublishedFrozen(r, "A5") })
 			ruleLockPairingFor(r, le, "U8", "a scheduler event never leaves the selection mutex held: every function of package transport/multi that takes a lock releases it on every path (an ignored event must not make the next Write hang)", func(fn *ssa.Function) bool {
 				return fnPkgPath(fn) == modPath+"/transport/multi" && (le.Info(fn).Events > 0 || len(le.Info(fn).Reports) > 0)
 			}, 4)
@@ -273,8 +274,14 @@ func ruleC19U2(r *Run) {
 					}
 				}
 			}
+			once := onceGuardHeads(fn)
 			allInstrs(fn, func(ins ssa.Instruction) {
 				if ret, ok := ins.(*ssa.Return); ok && done != nil && ret.Block() != fn.Recover {
+					for _, h := range once {
+						if h == ret.Block() || h.Dominates(ret.Block()) {
+							return // a second Close: the first one visits the members
+						}
+					}
 					if !(done == ret.Block() || done.Dominates(ret.Block())) {
 						early = true
 					}
@@ -549,7 +556,65 @@ func ruleC19U4(r *Run) {
 				}
 			}
 		}
-		r.Check(fnName(wr)+" writes to the selected member", ok, p.pos(wr.Pos()), fnName(wr), "Write goes to transportMap[currentTransportID]")
+		if !ok {
+			// or to the member the scheduler published: *F.Load() of an atomic.Pointer field F of the transport into
+			// which only addresses of variables holding a member (an element of a transport map) are stored
+			for _, c := range findCalls(wr, false, "/transport.Transport.Write", "/transport.Writer.Write", "/transport.ReadWriter.Write") {
+				u, isU := canonVal(instrCall(c).Value).(*ssa.UnOp)
+				if !isU || u.Op != token.MUL {
+					continue
+				}
+				ld, isC := u.X.(*ssa.Call)
+				if !isC || len(ld.Call.Args) == 0 {
+					continue
+				}
+				if o := calleeObj(&ld.Call); o == nil || o.Pkg() == nil || o.Pkg().Path() != "sync/atomic" || o.Name() != "Load" {
+					continue
+				}
+				fk := fieldKeyOfAddr(ld.Call.Args[0])
+				if !strings.HasPrefix(fk, muPkg+".Transport.") {
+					continue
+				}
+				stores, good := 0, true
+				for _, g := range p.Funcs {
+					if fnPkgPath(g) != modPath+muPkg {
+						continue
+					}
+					allInstrs(g, func(x ssa.Instruction) {
+						cc := instrCall(x)
+						if cc == nil || len(cc.Args) < 2 || fieldKeyOfAddr(cc.Args[0]) != fk {
+							return
+						}
+						if o := calleeObj(cc); o == nil || o.Pkg() == nil || o.Pkg().Path() != "sync/atomic" || o.Name() != "Store" {
+							return
+						}
+						stores++
+						a, isA := cc.Args[1].(*ssa.Alloc)
+						if !isA || a.Referrers() == nil {
+							good = false
+							return
+						}
+						for _, ref := range *a.Referrers() {
+							if st, isSt := ref.(*ssa.Store); isSt && st.Addr == ssa.Value(a) {
+								member := false
+								for _, l := range p.Leaves(st.Val, provOpts{}) {
+									if strings.HasPrefix(l, "elem:"+muPkg+".") && strings.Contains(l, "ransportMap") {
+										member = true
+									}
+								}
+								if !member {
+									good = false
+								}
+							}
+						}
+					})
+				}
+				if stores > 0 && good {
+					ok = true
+				}
+			}
+		}
+		r.Check(fnName(wr)+" writes to the selected member", ok, p.pos(wr.Pos()), fnName(wr), "Write goes to transportMap[currentTransportID] (or to the member published through an atomic pointer)")
 	}
 }
 
